@@ -32,6 +32,20 @@ type ExecCase struct {
 	Ctx      string            `json:"ctx"`   // own-root | child-of-shared-parent
 	Cache    string            `json:"cache"` // off | cold | warm
 	Rounds   int               `json:"rounds"`
+	// Layout, when set, is a second template executed on the SAME context right after Src (a page and its
+	// layout: blocks stored by contentFor in the first execution are rendered by contentOf in the second)
+	Layout string `json:"layout,omitempty"`
+}
+
+// pages that store blocks, and layouts that render them in a later execution on the same context
+var pageSnippets = []string{
+	`<% contentFor("side") { %>[side <%= s1 %> <%= for (i) in arr { %><%= i %><% } %>]<% } %>page body <%= s3 %>`,
+	`<% let loc = "local" %><% contentFor("side") { %>[<%= loc %> <%= s1 %>]<% } %><% contentFor("foot") { %>(foot <%= len(arr) %>)<% } %>body`,
+}
+
+var layoutSnippets = []string{
+	`<html><%= contentOf("side") %>|<%= contentOf("side", {s1: "override"}) %>|<%= for (i) in arr { %><%= i %><% } %><%= s3 %></html>`,
+	`<%= for (i) in two { %><%= contentOf("side") %><%= i %><% } %><%= contentOf("foot") { %>no foot<% } %>`,
 }
 
 var uniq int64
@@ -66,8 +80,23 @@ func runExec(r *vk.Run, c ExecCase) *vk.Fail {
 		r.Exclude("panic (subject of C03/C04)")
 		return nil
 	}
-	src := c.Src
-	var shared *plush.Template
+	if c.Layout != "" && base.Err == nil {
+		bctx := mkCtx()
+		base = vk.Safe(func() (string, error) {
+			a, err := plush.Render(c.Src, bctx)
+			if err != nil {
+				return a, err
+			}
+			b, err := plush.Render(c.Layout, bctx)
+			return a + "\x00" + b, err
+		})
+		if base.Panicked() {
+			r.Exclude("panic (subject of C03/C04)")
+			return nil
+		}
+	}
+	src, lay := c.Src, c.Layout
+	var shared, sharedLay *plush.Template
 	switch c.Cache {
 	case "off":
 		plush.CacheEnabled = false
@@ -75,13 +104,21 @@ func runExec(r *vk.Run, c ExecCase) *vk.Fail {
 		if err == nil {
 			shared = t
 		}
+		if lay != "" {
+			if t, err := plush.NewTemplate(lay); err == nil {
+				sharedLay = t
+			}
+		}
 	case "cold":
 		plush.CacheEnabled = true
 		src = fmt.Sprintf("<%%# c14 %d %%>%s", atomic.AddInt64(&uniq, 1), c.Src)
+		lay = fmt.Sprintf("<%%# c14 %d %%>%s", atomic.AddInt64(&uniq, 1), c.Layout)
 	case "warm":
 		plush.CacheEnabled = true
 		src = fmt.Sprintf("<%%# c14 %d %%>%s", atomic.AddInt64(&uniq, 1), c.Src)
+		lay = fmt.Sprintf("<%%# c14 %d %%>%s", atomic.AddInt64(&uniq, 1), c.Layout)
 		plush.Parse(src) // fill the cache first
+		plush.Parse(lay)
 	}
 	var parent *plush.Context
 	if c.Ctx == "child-of-shared-parent" {
@@ -115,6 +152,16 @@ func runExec(r *vk.Run, c ExecCase) *vk.Fail {
 					}
 					return plush.Render(src, ctx) // through the cache
 				})
+				if c.Layout != "" && !x.Panicked() && x.Err == nil {
+					first := x.Out
+					x = vk.Safe(func() (string, error) {
+						if sharedLay != nil {
+							return sharedLay.Exec(ctx)
+						}
+						return plush.Render(lay, ctx)
+					})
+					x.Out = first + "\x00" + x.Out
+				}
 				rr := res{out: x.Out}
 				if x.Panicked() {
 					rr.err = "PANIC " + fmt.Sprint(x.Panic)
@@ -140,6 +187,9 @@ func runExec(r *vk.Run, c ExecCase) *vk.Fail {
 		}
 	}
 	nt := ""
+	if c.Layout != "" {
+		nodeKinds += 3
+	}
 	if c.G >= 2 && nodeKinds >= 3 {
 		nt = string(key)
 	}
@@ -147,7 +197,7 @@ func runExec(r *vk.Run, c ExecCase) *vk.Fail {
 	r.Class(fmt.Sprintf("G=%d", c.G))
 	if nt != "" {
 		r.Sample(func() interface{} {
-			return map[string]interface{}{"template": c.Src, "goroutines": c.G, "context": c.Ctx, "cache": c.Cache, "sequential_result": want}
+			return map[string]interface{}{"template": c.Src, "layout": c.Layout, "goroutines": c.G, "context": c.Ctx, "cache": c.Cache, "sequential_result": want}
 		})
 	}
 	for g := range results {
@@ -293,7 +343,7 @@ func runCtx(r *vk.Run, c CtxCase) *vk.Fail {
 
 // ---- the test -----------------------------------------------------------------------------------------------
 
-const rule = "built with the Go race detector (halt on first report; the case noted last is the replay). (A) one parsed template executed from G in {2,4,8,16,32} goroutines x {own root context, child of one shared parent} x cache {off: the very same *Template and its Clones; cold; warm} x 3 rounds; templates: 8 fixed snippets exercising template-local arrays and hashes with index assignment, accumulating assignment in loops, contentFor/contentOf, built-in helpers and iterators, operators (~=, ==) whose right operand is a data value that differs in every execution, and random all-construct programs (shared generator, with partials and block helpers). Every concurrent result must equal the sequential result. (B) concurrent Parse+Exec / Render of 1-4 equal and different texts with the cache on (first goroutine cold, the rest warm). (C) 2-16 goroutines running random mixes of Set / Value / Has / New / New().Set / New().Value / Value(built-in) / Exec on a child, all on ONE shared context, with invariants on what they may observe. Non-trivial = G >= 2 and the template uses >= 3 kinds of construct (A), every B and C case; distinct by case."
+const rule = "built with the Go race detector (halt on first report; the case noted last is the replay). (A) one parsed template executed from G in {2,4,8,16,32} goroutines x {own root context, child of one shared parent} x cache {off: the very same *Template and its Clones; cold; warm} x 3 rounds; templates: 8 fixed snippets exercising template-local arrays and hashes with index assignment, accumulating assignment in loops, contentFor/contentOf, built-in helpers and iterators, operators (~=, ==) whose right operand is a data value that differs in every execution, and random all-construct programs (shared generator, with partials and block helpers). (A2) page + layout: every goroutine executes a page that stores blocks with contentFor and then, on the same context, a layout that renders them with contentOf (inside loops, with overrides, with a default block), so evaluator state captured by a stored block outlives the execution that created it. Every concurrent result must equal the sequential result. (B) concurrent Parse+Exec / Render of 1-4 equal and different texts with the cache on (first goroutine cold, the rest warm). (C) 2-16 goroutines running random mixes of Set / Value / Has / New / New().Set / New().Value / Value(built-in) / Exec on a child, all on ONE shared context, with invariants on what they may observe. Non-trivial = G >= 2 and the template uses >= 3 kinds of construct (A), every B and C case; distinct by case."
 
 func setup(t *testing.T) *vk.Run {
 	r := vk.Start(t, "C14", rule,
@@ -371,6 +421,20 @@ func TestProp(t *testing.T) {
 		}
 	}
 	r.Subspace("8 fixed snippets x G in {2,4,8,16,32} x 2 context modes x 3 cache modes", n, true)
+	var m int64
+	for _, s := range pageSnippets {
+		for _, l := range layoutSnippets {
+			for _, g := range gs {
+				for _, ca := range caches {
+					if r.Mine(n + m) {
+						r.Check(runExec(r, ExecCase{Src: s, Layout: l, G: g, Ctx: "own-root", Cache: ca, Rounds: 3}))
+					}
+					m++
+				}
+			}
+		}
+	}
+	r.Subspace("2 pages storing blocks x 2 layouts rendering them in a second execution on the same context x G x 3 cache modes", m, true)
 
 	// C: fixed heavy mixes
 	for _, g := range []int{2, 4, 8, 16} {
@@ -391,7 +455,12 @@ func TestProp(t *testing.T) {
 		if rapid.Bool().Draw(t, "snippet") {
 			src += rapid.SampledFrom(localSnippets).Draw(t, "sn")
 		}
-		return runExec(r, ExecCase{Src: src, Partials: progs.PartialText(pr, g.Partials), G: rapid.SampledFrom(gs).Draw(t, "G"),
+		layout := ""
+		if rapid.IntRange(0, 3).Draw(t, "page+layout") == 0 {
+			src += rapid.SampledFrom(pageSnippets).Draw(t, "page")
+			layout = rapid.SampledFrom(layoutSnippets).Draw(t, "layout")
+		}
+		return runExec(r, ExecCase{Src: src, Layout: layout, Partials: progs.PartialText(pr, g.Partials), G: rapid.SampledFrom(gs).Draw(t, "G"),
 			Ctx: rapid.SampledFrom(ctxs).Draw(t, "ctx"), Cache: rapid.SampledFrom(caches).Draw(t, "cache"), Rounds: rapid.IntRange(1, 3).Draw(t, "rounds")})
 	})
 	r.Rapid("parse", r.Pick(200, 1200), func(t *rapid.T) *vk.Fail {
